@@ -168,4 +168,36 @@ theorem scanKNN_eq_k_smallest (sq : P → P → K) (k : Nat) (hk : 0 < k) (p : P
   congr 1
   rw [← foldl_orderedInsert_eq_sort, List.foldl_map]
 
+/-! ### the stored POINTS: each one a scanned point with its own distance, none used twice -/
+
+theorem insertAt_perm (c : P) (d : K) : ∀ s : List (K × P), (insertAt c d s).Perm ((d, c) :: s)
+  | [] => List.Perm.refl _
+  | (e, q) :: r => by
+      simp only [insertAt]
+      split_ifs
+      · exact ((insertAt_perm c d r).cons (e, q)).trans (List.Perm.swap _ _ _)
+      · exact List.Perm.refl _
+
+theorem knnInsert_subperm (k : Nat) (s : List (K × P)) (c : P) (d : K) :
+    (knnInsert k s c d).Subperm ((d, c) :: s) := by
+  unfold knnInsert
+  split_ifs
+  · exact (List.sublist_cons_self _ _).subperm
+  · exact (List.take_sublist _ _).subperm.trans (insertAt_perm c d s).subperm
+
+/-- The pairs stored by the scan are pairs `(sq p c, c)` of scanned points, each scanned point used at most
+as often as it was scanned (sub-multiset). -/
+theorem scanKNN_subperm (sq : P → P → K) (k : Nat) (p : P) :
+    ∀ (l : List P) (s : List (K × P)),
+      (scanKNN sq k p l s).Subperm (s ++ l.map (fun c => (sq p c, c))) := by
+  intro l
+  induction l with
+  | nil => intro s; simp only [scanKNN, List.foldl_nil, List.map_nil, List.append_nil]; exact List.Subperm.refl _
+  | cons c l ih =>
+      intro s
+      simp only [scanKNN, List.foldl_cons, List.map_cons]
+      refine (ih _).trans ?_
+      refine ((List.subperm_append_right _).mpr (knnInsert_subperm k s c (sq p c))).trans ?_
+      exact (List.perm_middle.symm).subperm
+
 end M3d.Spatial
